@@ -54,6 +54,8 @@ ATOMS = ["a", r"\.", r"\x41", ".", r"\d", r"\w", "[ab]", "[a-c]", r"[\w-]", "[^a
          "[^a-c]", r"[a\d]", r"[^\w]",
          # negated classes mixing literal / range / category members in both orders
          r"[^a\d]", r"[^\da]", r"[^a-c\d]", r"[^\d_a-c]", r"[^ \w]", r"[a-c\d_]",
+         # two DIFFERENT single-character negations in one pattern (and next to a class)
+         "[^a][^b]", "[^b]x[^a]", "[^a][^ab][^b]", "[^a]+[^b]",
          # negated ranges that reach or pass the last letter of the generator's alphabet ('~')
          r"[^a-~]", r"[^!-\xff]", r"[^#-\u04ff]"]
 QUANTS = ["", "?", "*", "+", "{2}", "{1,2}", "{2,}", "{33,}", "{0,44}", "*?", "+?", "??", "{1,2}?",
